@@ -33,6 +33,7 @@ CheckCall(e, c) ==
      \* (point 3 is a non-dyadic neighbour of point 1, used for the request-kind clause only)
      ELSE IF e.pt # 3 /\ \E i \in 1..n : \E v \in 1..2 : ~(e.ovars[i][v].k = "q" /\ ObsEq(e.uvars[i][v], UserOf(e.ovars[i][v], v, e.tf)))
           THEN "row_variables_not_user_domain"
+     ELSE IF ~e.batchok THEN "result_labelled_with_the_batch_of_another_call"
      \* (anti-vacuity: the harness must have recorded the reported values of this call)
      ELSE IF Len(e.values) = 0 THEN "harness_recorded_no_reported_values"
      \* every reported per-realization value is the one returned for the row with that label
